@@ -84,6 +84,7 @@ class Report:
                 line = "KNOWN-FINDING: property=%s %s" % (self.prop, k.get("what", obname))
                 if line not in self.lines:
                     self.lines.append(line)
+                if not any(x["obligation"] == obname for x in self.known_reported):
                     self.known_reported.append({"id": k.get("id"), "obligation": obname, "witness": witness})
                 return
         path = self._replay_path(obname)
